@@ -98,11 +98,17 @@ impl Scenario for SpillUtil {
         let list = entries_of(c.seed, c.n);
         let es = entries_to_crate(&list);
         let comp = sut::comp(c.ic);
-        // does the whole list fit? measured with the crate's own directory serialiser
+        // does the whole list fit? measured with the crate's own directory serialiser of the SAME
+        // face (the sync and async codec back ends may differ by a few bytes, so "fits" is
+        // face-specific)
         let whole_len = {
             let d: Directory = es.clone().into();
             let mut buf = SimDisk::plain(Vec::new());
-            match sut::guard("Directory::to_writer", || d.to_writer(&mut buf, comp))? {
+            let r = match c.face {
+                Face::Sync => sut::guard("Directory::to_writer", || d.to_writer(&mut buf, comp))?,
+                Face::Async => sut::guard_async("Directory::to_async_writer", d.to_async_writer(&mut buf, comp))?,
+            };
+            match r {
                 Ok(()) => buf.image_len() as u64,
                 Err(e) => vio!("C06:dir-write-failed", "serialising the full list failed: {e}"),
             }
